@@ -37,7 +37,7 @@ def main():
     if rep:
         add(rep["routine"], [[Fr(x) for x in r] for r in rep["nodes"]], [Fr(x) for x in rep["params"]], rep["regime"])
     else:
-        thorough = tier == "thorough" or search
+        thorough = tier == "thorough"
         # (a) E regime: integer nets, dyadic parameters, all arithmetic exact in binary64
         for n in range(1, 9):
             for dim in (1, 2, 3, 4):
